@@ -84,15 +84,29 @@ def render_cb(prog, cbid, indent="    "):
             f"{indent}@property\n{indent}def {name}(self):\n"
             f"{indent}    return SIM.cb({full!r}, self, {{}}, {grp!r})\n"
         )
+    deco = f"{indent}@_sim_deco\n" if meta.get("wrapped") else ""
     if meta.get("async"):
         return (
-            f"{indent}async def {name}({sig}):\n"
+            f"{deco}{indent}async def {name}({sig}):\n"
             f"{indent}    return await SIM.acb({full!r}, self, locals(), {grp!r})\n"
         )
     return (
-        f"{indent}def {name}({sig}):\n"
+        f"{deco}{indent}def {name}({sig}):\n"
         f"{indent}    return SIM.cb({full!r}, self, locals(), {grp!r})\n"
     )
+
+
+def render_partial_fn(prog, cbid):
+    """A module-level function used through ``functools.partial(fn, listener)`` as a callback."""
+    meta = prog["cbs"][cbid]
+    role, name = cbid.split(".", 1)
+    full = f"{prog['name']}/{cbid}"
+    sig = sig_src(meta.get("sig", [])).replace("self", "self_", 1)
+    fn = f"_pf_{pyname(prog)}_{role}_{name}"
+    body = "{k: v for k, v in locals().items() if k != 'self_'}"
+    if meta.get("async"):
+        return (f"async def {fn}({sig}):\n    return await SIM.acb({full!r}, self_, {body}, {meta['group']!r})\n")
+    return f"def {fn}({sig}):\n    return SIM.cb({full!r}, self_, {body}, {meta['group']!r})\n"
 
 
 def pyname(prog):
@@ -152,12 +166,21 @@ def render_model(prog):
 def render_listener(prog, role):
     name = pyname(prog) + "_" + role
     body = []
+    pre = []
+    init = []
     for cbid in sorted(prog["cbs"]):
         if cbid.startswith(role + "."):
-            body.append(render_cb(prog, cbid))
+            if prog["cbs"][cbid].get("partial"):
+                pre.append(render_partial_fn(prog, cbid))
+                nm = cbid.split(".", 1)[1]
+                init.append(f"        self.{nm} = functools.partial(_pf_{pyname(prog)}_{role}_{nm}, self)\n")
+            else:
+                body.append(render_cb(prog, cbid))
+    if init:
+        body.insert(0, "    def __init__(self):\n" + "".join(init))
     if not body:
         body.append("    pass\n")
-    return f"class {name}:\n" + "\n".join(body) + "\n"
+    return "\n".join(pre) + ("\n" if pre else "") + f"class {name}:\n" + "\n".join(body) + "\n"
 
 
 def style_of(prog, name):
@@ -279,6 +302,19 @@ def render_program(prog, base_name=None):
         "from statemachine import StateMachine, State",
         "from statemachine.mixins import MachineMixin",
         "from sim.simrt import SIM",
+        "import asyncio",
+        "import functools",
+        "",
+        "def _sim_deco(f):",
+        "    if asyncio.iscoroutinefunction(f):",
+        "        @functools.wraps(f)",
+        "        async def wrapper(*args, **kwargs):",
+        "            return await f(*args, **kwargs)",
+        "    else:",
+        "        @functools.wraps(f)",
+        "        def wrapper(*args, **kwargs):",
+        "            return f(*args, **kwargs)",
+        "    return wrapper",
         "",
     ]
     for en in prog.get("enums", []):
